@@ -372,8 +372,8 @@ class Stats(object):
         if key not in self.fail: self.fail[key] = (inp, observed, required)
 
 
-def file_roundtrip_diff(g, ph):
-    """write the grid in a TOUGH2 data file and read it back: the signature must survive to file precision"""
+def reread(g):
+    """the grid after t2data.write / t2data(filename)"""
     import tempfile, shutil
     from t2data import t2data
     d = tempfile.mkdtemp()
@@ -381,13 +381,26 @@ def file_roundtrip_diff(g, ph):
         dat = t2data(); dat.grid = g
         fn = os.path.join(d, 'rt.dat')
         dat.write(fn)
-        back = t2data(fn).grid
+        return t2data(fn).grid
     finally: shutil.rmtree(d, ignore_errors=True)
+
+
+def centre_close(c, c2):
+    """block centres are written with four significant digits (10.3e)"""
+    if c is None or c2 is None: return c is None and c2 is None
+    return len(c) == len(c2) and all(abs(a - b) <= 6e-4 * max(abs(a), abs(b)) + 1e-9 for a, b in zip(c, c2))
+
+
+def file_roundtrip_diff(g, ph):
+    """write the grid in a TOUGH2 data file and read it back: the whole signature (volume, rock type, centre of every block;
+    area, direction, own distances, oriented cosine of every connected pair) must survive to file precision"""
+    back = reread(g)
     (B, C), (B2, C2) = ph, phys(back)
     close = lambda a, b: (a is None and b is None) or (a is not None and b is not None and abs(a - b) <= 2e-4 * max(abs(a), abs(b)) + 1e-12)
     if set(B) != set(B2): return 'block names differ after write/read: %r' % sorted(set(B) ^ set(B2))[:4]
     for n in B:
         if not close(B[n][0], B2[n][0]) or B[n][1] != B2[n][1]: return 'block %r: %r read back as %r' % (n, B[n], B2[n])
+        if not centre_close(B[n][2], B2[n][2]): return 'block %r: centre %r read back as %r' % (n, B[n][2], B2[n][2])
     if set(C) != set(C2): return 'connected pairs differ after write/read: %r' % sorted(set(C) ^ set(C2))[:4]
     for k in C:
         if len(C[k]) != len(C2[k]): return 'pair %r multiplicity' % (k,)
@@ -427,8 +440,18 @@ def reorder_rename_worker(args):
         ph = phys(g)
         nops = rng.choice([1, 1, 2, 3, 4])
         broken = False
+        first_obj = g.blocklist[0]
+        do_file = bool(with_files) and rng.random() < with_files and nblk <= 120
         for t in range(nops):
             op, key = random_op(rng, g, geo, t == 0)
+            if do_file and t == 0 and nblk > 1:
+                # the written file must not depend on where a block sits in the list: start with a block permutation
+                # that takes the first block (the atmosphere block of an atmosphere-type-0 grid) off position 0
+                names0 = [b.name for b in g.blocklist]
+                perm = list(names0)
+                while perm[0] == names0[0]: rng.shuffle(perm)
+                cns = op[2] if op[0] == 'ro' else ()
+                op, key = ('ro', tuple(perm), tuple(cns)), ('reorder:reversed-connection' if any(c not in g.connection for c in cns) else 'reorder:permutation')
             ops.append(op); st.kinds[key] += 1
             if op[0] == 'ro': st.reversed_conns += sum(1 for c in op[2] if c not in g.connection)
             case = {'geo': list(params), 'ops': [list(o) for o in ops]}
@@ -447,7 +470,8 @@ def reorder_rename_worker(args):
                 broken = True
                 st.failure(key if op[0] == 'ro' else 'rename_blocks:one-to-one-map', case, d, REQ_RO if op[0] == 'ro' else REQ_RN)
             ph = got if broken else want
-        if with_files and not broken and rng.random() < with_files and nblk <= 120:
+        if do_file and not broken:
+            st.kinds['write-read:atmos_type:%d%s' % (params[3], ':first-block-moved' if g.blocklist[0] is not first_obj else '')] += 1
             try:
                 d = file_roundtrip_diff(g, ph); st.filerounds += 1
             except Exception as e:
@@ -643,17 +667,63 @@ def minc_check(g, case, sel):
 
 
 # ---- embed -----------------------------------------------------------------------------------------------
-def embed_setup(T, rng_or_none, g, case):
-    """the sub-grid, the host / connecting blocks and the connection object of an embed case"""
+def embed_setup(T, g, case):
+    """the grid embed is called on, the sub-grid, the host / connecting block objects of the connection, the connection, and the
+    block objects of the connection that belong to neither grid (as a grid, for the wire format).
+    host_mode: 'own' = self's block; 'copy' = an equal-named t2block with copy_factor x its volume; 'reread' = self is the grid
+    after a data-file write/read and the connection still holds the block of the earlier in-memory instance."""
     from mulgrids import mulgrid
     sx, sy, sz, scale = case['sub']
     kw = {} if case.get('collide') else {'chars': 'uvwxyz'}
     subgeo = mulgrid().rectangular([scale] * sx, [scale] * sy, [scale] * sz, atmos_type=2, convention=case.get('convention', 0), **kw)
     sub = T.t2grid().fromgeo(subgeo)
-    host = g.block[case['host']]
-    inner = sub.block[case['inner']] if case['inner'] in sub.block else sub.blocklist[0]
+    hm, im = case.get('host_mode', 'own'), case.get('inner_mode', 'own')
+    selfgrid = reread(g) if hm == 'reread' else g
+    src = g.block[case['host']]
+    if hm == 'own': host = src
+    elif hm == 'copy': host = T.t2block(src.name, float(src.volume) * case.get('copy_factor', 1.0), src.rocktype, centre=src.centre)
+    else: host = src
+    innerown = sub.block[case['inner']] if case.get('inner') in sub.block else sub.blocklist[0]
+    inner = innerown if im == 'own' else T.t2block(innerown.name, float(innerown.volume), innerown.rocktype, centre=innerown.centre)
     con = T.t2connection([host, inner], 1, list(case['distances']), case['area'], 0.0)
-    return sub, host, inner, con
+    loose = T.t2grid()
+    for b in ([host] if hm != 'own' else []) + ([inner] if im != 'own' else []):
+        if b.rocktype.name not in loose.rocktype: loose.add_rocktype(b.rocktype)
+        loose.add_block(b)
+    return selfgrid, sub, host, inner, con, loose
+
+
+def embed_check(selfgrid, sub, host, inner, con):
+    """call embed on the real grid and evaluate the statement; returns (result, [(key, observed, required)], kind label)"""
+    import io, contextlib
+    subvol = sum(float(b.volume) for b in sub.blocklist)
+    total = sum(float(b.volume) for b in selfgrid.blocklist)
+    own = selfgrid.block.get(host.name)
+    ownvol = None if own is None else float(own.volume)          # the block of self that carries the host's name
+    convol = float(host.volume)                                   # the host object the caller put in the connection
+    dup = set(b.name for b in selfgrid.blocklist) & set(b.name for b in sub.blocklist)
+    nself = len(selfgrid.blocklist)
+    try:
+        with contextlib.redirect_stdout(io.StringIO()), time_limit(CASE_SECONDS):
+            r = selfgrid.embed(sub, con)
+    except CaseTimeout:
+        return None, [('embed:does-not-return', 'embed did not return within %d s' % CASE_SECONDS, 'embed returns a grid or None')], 'E:Timeout'
+    except Exception as e:
+        return None, [('embed:raises', 'raised %s: %s' % (exn_name(e), str(e)[:200]), 'embed returns a grid or None')], 'E:' + exn_name(e)
+    out = []
+    if r is None:
+        if not dup and subvol < convol: out.append(('embed:refused', 'embed returned None', 'a sub-grid smaller than its host with distinct names is embedded'))
+        return r, out, 'refused:' + ('host-too-small' if not subvol < convol else 'duplicate-names')
+    newtotal = sum(float(b.volume) for b in r.blocklist)
+    if ownvol is not None and ownvol < 1e20 and abs(newtotal - total) > 1e-9 * max(abs(total), 1.):
+        out.append(('embed:volume', 'total volume %r before, %r after (sub-grid %r)' % (total, newtotal, subvol), 'embedding conserves total volume'))
+    hb = r.block.get(host.name)
+    if hb is None or ownvol is None or abs(float(hb.volume) - (ownvol - subvol)) > 1e-9 * max(abs(ownvol), 1.):
+        out.append(('embed:volume', 'host volume %r, expected %r - %r' % (None if hb is None else float(hb.volume), ownvol, subvol), 'the sub-grid volume is taken out of the host block'))
+    if len(r.blocklist) != nself + len(sub.blocklist) or (host.name, inner.name) not in r.connection:
+        out.append(('embed:structure', '%d blocks, connection present: %r' % (len(r.blocklist), (host.name, inner.name) in r.connection),
+                    'all blocks of both grids and the linking connection are present'))
+    return r, out, 'embedded' + (':atmosphere-host(total-not-compared)' if ownvol is not None and ownvol >= 1e20 else '')
 
 
 def embed_worker(args):
@@ -661,56 +731,40 @@ def embed_worker(args):
     rng = random.Random(seed)
     st = Stats()
     T = _impl()
-    import io, contextlib
     lines, cases, expects = [], [], []
     for ci in range(ncases):
+        if st.failn.get('embed:does-not-return'): break
         params = random_geo_params(rng, rng.choice(sizes))
         params = params[:7] + (False,)
         try: geo, g = build(params)
         except Exception as e:
             st.skipped['geometry-construction-failed:' + exn_name(e)] += 1; continue
         if any(not NAME_OK.match(b.name) for b in g.blocklist): st.skipped['name-alphabet'] += 1; continue
-        if st.failn.get('embed:does-not-return'): break
         case = {'geo': list(params), 'sub': [rng.randint(1, 2), rng.randint(1, 2), rng.randint(1, 2), rng.choice([0.5, 1., 2., 4.])],
                 'convention': rng.choice([0, 1, 2]), 'collide': rng.random() < 0.12, 'host': rng.choice(g.blocklist).name,
-                'distances': [rng.uniform(0.1, 5.), rng.uniform(0.1, 2.)], 'area': rng.uniform(0.1, 10.)}
-        case['inner'] = ''
-        sub, host, inner, con = embed_setup(T, rng, g, case)
-        inner = rng.choice(sub.blocklist); con.block[1] = inner; case['inner'] = inner.name
-        if any(not NAME_OK.match(b.name) for b in sub.blocklist): st.skipped['name-alphabet'] += 1; continue
-        subvol = sum(float(b.volume) for b in sub.blocklist)
-        total = sum(float(b.volume) for b in g.blocklist)
-        hostvol = float(host.volume)
-        dup = set(b.name for b in g.blocklist) & set(b.name for b in sub.blocklist)
+                'distances': [rng.uniform(0.1, 5.), rng.uniform(0.1, 2.)], 'area': rng.uniform(0.1, 10.),
+                'host_mode': rng.choice(['own'] * 5 + ['copy'] * 3 + ['reread'] * 2), 'inner_mode': rng.choice(['own'] * 4 + ['copy']),
+                'copy_factor': rng.choice([1.0, 1.0, 0.5, 2.0])}
+        if case['host_mode'] == 'reread' and len(g.blocklist) > 120: case['host_mode'] = 'copy'
+        # the connecting block: a random block of the sub-grid (its name depends on the convention)
+        _, sub0, _, _, _, _ = embed_setup(T, g, dict(case, host_mode='own', inner_mode='own'))
+        case['inner'] = rng.choice(sub0.blocklist).name
+        if any(not NAME_OK.match(b.name) for b in sub0.blocklist): st.skipped['name-alphabet'] += 1; continue
+        if case['inner'] == case['host']: case['inner_mode'] = 'own'
+        try: selfgrid, sub, host, inner, con, loose = embed_setup(T, g, case)
+        except Exception as e:
+            st.skipped['embed-setup-raised:' + exn_name(e)] += 1; continue
         st.cases += 1
         st.distinct.append(zlib.crc32(json.dumps(case, sort_keys=True).encode()))
-        line = 'E\t' + '\t'.join(qgrid_fields(g) + ['sub'] + qgrid_fields(sub) + [','.join(
-            ['em', hx(host.name), hx(inner.name), qtok(con.distance[0]), qtok(con.distance[1]), qtok(con.area), hx(tok(con.direction)), hx(tok(con.dircos))])])
-        try:
-            with contextlib.redirect_stdout(io.StringIO()), time_limit(CASE_SECONDS):
-                r = g.embed(sub, con)
-        except CaseTimeout:
-            st.failure('embed:does-not-return', case, 'embed did not return within %d s' % CASE_SECONDS, 'embed returns a grid or None'); continue
-        except Exception as e:
-            st.failure('embed:raises', case, 'raised %s: %s' % (exn_name(e), str(e)[:200]), 'embed returns a grid or None')
-            lines.append(line); cases.append(case); expects.append('E:' + exn_name(e)); continue
-        lines.append(line); cases.append(case); expects.append(('None' if r is None else qdump(r)) + '|' + qdump(g))
-        if r is None:
-            st.kinds['refused:' + ('host-too-small' if not subvol < hostvol else 'duplicate-names')] += 1
-            if not dup and subvol < hostvol: st.failure('embed:refused', case, 'embed returned None', 'a sub-grid smaller than its host with distinct names is embedded')
-            continue
-        st.kinds['embedded'] += 1
-        newtotal = sum(float(b.volume) for b in r.blocklist)
-        if abs(newtotal - total) > 1e-9 * max(abs(total), 1.) and hostvol < 1e20:
-            st.failure('embed:volume', case, 'total volume %r before, %r after' % (total, newtotal), 'embedding conserves total volume')
-        elif hostvol >= 1e20:
-            st.kinds['host-is-atmosphere(volume-not-compared)'] += 1
-        hb = r.block.get(host.name)
-        if hb is None or abs(float(hb.volume) - (hostvol - subvol)) > 1e-9 * max(hostvol, 1.):
-            st.failure('embed:volume', case, 'host volume %r, expected %r - %r' % (None if hb is None else float(hb.volume), hostvol, subvol), 'the sub-grid volume is taken out of the host block')
-        if len(r.blocklist) != len(g.blocklist) + len(sub.blocklist) or (host.name, inner.name) not in r.connection:
-            st.failure('embed:structure', case, '%d blocks, connection present: %r' % (len(r.blocklist), (host.name, inner.name) in r.connection),
-                       'all blocks of both grids and the linking connection are present')
+        st.kinds['host-object:' + case['host_mode']] += 1; st.kinds['connecting-object:' + case['inner_mode']] += 1
+        line = 'E\t' + '\t'.join(qgrid_fields(selfgrid) + ['sub'] + qgrid_fields(sub) + ['loose'] + qgrid_fields(loose) + [','.join(
+            ['em', hx(host.name), hx(inner.name), qtok(con.distance[0]), qtok(con.distance[1]), qtok(con.area), hx(tok(con.direction)), hx(tok(con.dircos)),
+             'l' if case['host_mode'] != 'own' else 's', 'l' if case['inner_mode'] != 'own' else 'u'])])
+        r, out, label = embed_check(selfgrid, sub, host, inner, con)
+        st.kinds[label] += 1
+        for key, obs, req in out: st.failure(key, case, obs, req)
+        lines.append(line); cases.append(case)
+        expects.append(label if label.startswith('E:') else ('None' if r is None else qdump(r)) + '|' + qdump(selfgrid))
     compare_with_model(st, exe, lines, cases, expects)
     return st
 
@@ -771,12 +825,16 @@ def run(ctx):
                 'irregular variants: tilted gravity (gdcx/gdcy), uneven surface (truncated columns), locally refined columns with triangular transitions); '
                 '(1) 1-4 random calls of reorder (random permutation of blocks and/or connections, a random 0/20/50/100% of the connections listed with their blocks swapped, '
                 'or reorder by the geometry lists) and rename_blocks (fresh names, all blocks, swaps, cycles, chains; fix_blocknames on and off), each step compared with the '
-                'extracted model (payload dump) and with the physical signature before; a sample is also written to a TOUGH2 data file and read back; '
+                'extracted model (payload dump) and with the physical signature before; a sample (15% quick, 25% thorough; all three atmosphere types) starts with a block permutation that takes the first block '
+                '(the atmosphere block of a type-0 grid) off position 0 and ends with t2data.write / t2data(filename): the FULL signature (volume, rock type, CENTRE of every block; area, direction, own '
+                'distances, oriented cosine of every pair) must come back to file precision; '
                 '(2) minc with 2-6 volume fractions (summing to less than, exactly and more than 1; integers and floats), 1-3 fracture-plane sets, assorted spacings, all blocks or a random selection (names or block '
                 'objects, sometimes with a repeated name: refusal), three atmos_volume cut-offs, a non-default rock type in 30%: the whole grid afterwards is '
                 'compared with the extracted MincModel and the three MINC clauses are evaluated on the real grid; a sample is written to a data file and read back; '
-                '(3) embed of a small rectangular sub-grid into a random host block (12% with colliding block names, some hosts too small, some atmosphere hosts): result grid and the '
-                'aliased self grid compared with the model, total volume / host volume / structure evaluated on the real result. A case is one grid with its call sequence / parameter '
+                '(3) embed of a small rectangular sub-grid into a random host block (12% with colliding block names, some hosts too small, some atmosphere hosts); the connection handed to embed holds the grid\'s own '
+                'host block (50%), an equal-named t2block of 1x / 0.5x / 2x the volume that belongs to no grid (30%), or the block of the in-memory grid while embed runs on that grid after a data-file write/read (20%); '
+                'the connecting block is the sub-grid\'s own or an equal-named copy (20%): result grid and the (aliased) self grid compared with the model; total volume, volume of the block filed under the host\'s name '
+                'and structure evaluated on the real result. A case is one grid with its call sequence / parameter '
                 'set; all counted cases are non-trivial (at least one call on a non-empty grid); distinct by the encoded case')
     ctx.trusted += ['Coq 8.16.1 kernel (coqc)',
                     'hand-written model coq/C09/GridPhys.v (C08 model + payload tokens) of fromgeo\'s add_* calls, rename_blocks and reorder; agreement with t2grids.py is TESTED on this run, not proved',
@@ -791,6 +849,7 @@ def run(ctx):
                         'MINC theorems assume a well-formed grid (dictionaries describe the lists, connections join blocks of the grid, rock types filed under their names) and a selection of distinct names of blocks of the grid; the oracle counts how many real grids meet this (wf-hypothesis-holds)',
                         'MINC connection areas/distances: the model reproduces original_vol * a[m-1] and [d[m-1], d[m]] from the probed d[], a[]; whether d[], a[] are the right geometry for the proximity function is not checked',
                         'embed: total volume is compared by the oracle when the host is not a 1e25 atmosphere block (1e25 - v is not representable); the model comparison covers those too',
+                        'embed: the size test uses the volume of the host OBJECT in the connection, the subtraction goes to the block of the result filed under its name (as the code and the model do); centres after a file round trip are compared to 6e-4 relative (10.3e on file)',
                         'the state of a grid after minc / embed raised is not modelled (only the exception class is compared)']
     ctx.stage()
     ok = ctx.coq_build(props=('Props.v',))
@@ -844,23 +903,11 @@ def replay(ctx, data):
             if d: print('  ' + d); return True
         return bool(out)
     if kind == 'embed':
-        import io, contextlib
         T = _impl()
         if 'distances' not in case: case = dict(case, distances=[1., 1.], area=1.)
-        sub, host, inner, con = embed_setup(T, None, g, case)
-        total = sum(float(b.volume) for b in g.blocklist); hostvol = float(host.volume); subvol = sum(float(b.volume) for b in sub.blocklist)
-        dup = set(b.name for b in g.blocklist) & set(b.name for b in sub.blocklist)
-        try:
-            with contextlib.redirect_stdout(io.StringIO()):
-                r = g.embed(sub, con)
-        except Exception as e:
-            print('  embed raised %s' % exn_name(e)); return True
-        if r is None:
-            print('  embed returned None'); return (not dup) and subvol < hostvol
-        nt = sum(float(b.volume) for b in r.blocklist)
-        hb = r.block.get(host.name)
-        print('  total volume %r -> %r; host %r -> %r (sub-grid %r)' % (total, nt, hostvol, None if hb is None else float(hb.volume), subvol))
-        if hb is None or abs(float(hb.volume) - (hostvol - subvol)) > 1e-9 * max(hostvol, 1.): return True
-        if len(r.blocklist) != len(g.blocklist) + len(sub.blocklist) or (host.name, inner.name) not in r.connection: return True
-        return hostvol < 1e20 and abs(nt - total) > 1e-9 * max(abs(total), 1.)
+        selfgrid, sub, host, inner, con, loose = embed_setup(T, g, case)
+        r, out, label = embed_check(selfgrid, sub, host, inner, con)
+        print('  embed (%s host object, %s connecting object): %s' % (case.get('host_mode', 'own'), case.get('inner_mode', 'own'), label))
+        for key, obs, req in out: print('  %s: %s' % (key, obs))
+        return bool(out)
     return True
